@@ -1,4 +1,122 @@
+/-
+C01 — derivatives = stoichiometry × rates over fully resolved values.
+Property theorems only (helper lemmas: Lemmas/{Env,Eval,Init,Rhs}.lean).  All statements are about
+`Mxl.callRhs` / `Mxl.getRhs` / `Mxl.createCache`, the functions the driver executes.
+-/
+import MxlVerif.Lemmas.Rhs
+import MxlVerif.Lemmas.Args
 import MxlVerif.Model.Queries
 namespace Mxl.C01
-theorem placeholder : True := trivial
+open Mxl
+
+theorem mapM_get_eq {dxdt : List (Name × Rat)} {g : Name → Rat} :
+    ∀ (vn : List Name) (d : List Rat), vn.mapM (Env.get dxdt) = .ok d →
+      (∀ x ∈ vn, dxdt.lookup x = some (g x)) → d = vn.map g := by
+  intro vn
+  induction vn with
+  | nil => intro d h _; simp [pure, Except.pure] at h; simp [h]
+  | cons x xs ih =>
+    intro d h hg
+    rw [List.mapM_cons] at h
+    obtain ⟨v, h1, h⟩ := bind_ok h
+    obtain ⟨vs, h2, h⟩ := bind_ok h
+    simp only [pure, Except.pure, Except.ok.injEq] at h
+    subst h
+    have hv := (get_ok_iff dxdt x v).mp h1
+    rw [hg x (by simp)] at hv
+    cases hv
+    simp [ih vs h2 (fun y hy => hg y (List.mem_cons_of_mem _ hy))]
+
+theorem callRhs_stages (c : Content) (t : Rat) (xs d : List Rat) (h : callRhs c t xs = .ok d) :
+    ∃ cache dep dxdt, createCache c = .ok cache ∧ cache.varNames = omKeys c.vars ∧
+      xs.length = cache.varNames.length ∧
+      getArgsEnv c cache (cache.varNames.zip xs) t = .ok dep ∧
+      rhsFromArgs cache cache.varNames dep = .ok dxdt ∧
+      cache.varNames.mapM (Env.get dxdt) = .ok d := by
+  unfold callRhs at h
+  obtain ⟨cache, h1, h⟩ := bind_ok h
+  have hvn : cache.varNames = omKeys c.vars := by
+    obtain ⟨_, _, _, _, _, _, _, _, _, _, _, hc⟩ := createCache_ok h1
+    rw [hc]
+  by_cases hlen : (xs.length != cache.varNames.length) = true
+  · simp [hlen] at h
+  · simp only [hlen, Bool.false_eq_true, if_false] at h
+    obtain ⟨dep, h2, h⟩ := bind_ok h
+    obtain ⟨dxdt, h3, h⟩ := bind_ok h
+    exact ⟨cache, dep, dxdt, h1, hvn, by simpa using hlen, h2, h3, h⟩
+
+/-- **The vector handed to integrators.**  Whenever `Model.__call__(time, variables)` returns, it
+    returns one number per variable, in declaration order; the entry of variable `x` is the sum,
+    over the cache's static coefficient table and its state-dependent coefficient table, of
+    coefficient × flux, all read from the one argument environment `dep` that `_get_args` built for
+    this state and time; a variable no reaction touches gets the empty sum `0`. -/
+theorem C01_rhs_is_sum (c : Content) (t : Rat) (xs d : List Rat) (h : callRhs c t xs = .ok d) :
+    ∃ cache dep, createCache c = .ok cache ∧ cache.varNames = omKeys c.vars ∧
+      xs.length = cache.varNames.length ∧
+      getArgsEnv c cache (cache.varNames.zip xs) t = .ok dep ∧
+      d = (omKeys c.vars).map (fun x =>
+        contribS dep x cache.stoich + contribD dep x cache.dynStoich) := by
+  obtain ⟨cache, dep, dxdt, h1, hvn, hlen, h2, h3, h4⟩ := callRhs_stages c t xs d h
+  refine ⟨cache, dep, h1, hvn, hlen, h2, ?_⟩
+  rw [← hvn]
+  apply mapM_get_eq _ _ h4
+  intro x hx
+  rw [rhsFromArgs_lookup h3 x]
+  simp [hx]
+
+/-- a variable that appears in neither coefficient table gets exactly 0 -/
+theorem C01_untouched_zero (dep : Env) (x : Name)
+    (st : List (Name × List (Name × Rat))) (dst : List (Name × List (Name × Fn)))
+    (h1 : x ∉ st.map (·.1)) (h2 : x ∉ dst.map (·.1)) :
+    contribS dep x st + contribD dep x dst = 0 := by
+  have hs : contribS dep x st = 0 := by
+    induction st with
+    | nil => rfl
+    | cons e rest ih =>
+      obtain ⟨k, r⟩ := e
+      simp only [List.map_cons, List.mem_cons, not_or] at h1
+      have : ¬ k = x := fun h => h1.1 h.symm
+      simp [contribS, this, ih h1.2, Rat.add_zero]
+  have hd : contribD dep x dst = 0 := by
+    induction dst with
+    | nil => rfl
+    | cons e rest ih =>
+      obtain ⟨k, r⟩ := e
+      simp only [List.map_cons, List.mem_cons, not_or] at h2
+      have : ¬ k = x := fun h => h2.1 h.symm
+      simp [contribD, this, ih h2.2, Rat.add_zero]
+  rw [hs, hd, Rat.add_zero]
+
+/-- **Every way of asking returns the same numbers (positional vs named).**  If the positional
+    call returns `d`, the named right-hand side for the same state and time returns a table whose
+    entry for the i-th declared variable is `d[i]`. -/
+theorem C01_entry_points_agree (c : Content) (t : Rat) (xs d : List Rat)
+    (h : callRhs c t xs = .ok d) :
+    ∃ dxdt, getRhs c ((omKeys c.vars).zip xs) t = .ok dxdt ∧
+      (omKeys c.vars).map (fun x => dxdt.lookup x) = d.map some := by
+  obtain ⟨cache, dep, dxdt, h1, hvn, _, h2, h3, h4⟩ := callRhs_stages c t xs d h
+  rw [hvn] at h2 h3 h4
+  refine ⟨dxdt, ?_, ?_⟩
+  · simp [getRhs, h1, h2, h3, bind, Except.bind]
+  · have hd := mapM_get_eq (g := fun x => contribS dep x cache.stoich + contribD dep x cache.dynStoich)
+      _ _ h4 (by intro x hx; rw [rhsFromArgs_lookup h3 x]; simp [hx])
+    rw [hd, List.map_map]
+    apply List.map_congr_left
+    intro x hx
+    rw [rhsFromArgs_lookup h3 x]
+    simp [hx]
+
+/-- the fluxes table and the full argument table are read from the same environment as the
+    derivatives (`get_fluxes` is `get_args` restricted to flux names) -/
+theorem C01_fluxes_from_args (c : Content) (vars : Option (List (Name × Rat))) (t : Rat)
+    (fl : List (Name × Rat)) (h : getFluxes c vars t = .ok fl) :
+    ∃ cache dep, createCache c = .ok cache ∧
+      getArgsEnv c cache (resolveVars cache vars) t = .ok dep ∧
+      fl.map (·.1) = c.fluxNames ∧ ∀ kv ∈ fl, dep.lookup kv.1 = some kv.2 := by
+  unfold getFluxes at h
+  obtain ⟨cache, h1, h⟩ := bind_ok h
+  obtain ⟨dep, h2, h⟩ := bind_ok h
+  obtain ⟨hk, hv⟩ := mapM_get_spec dep _ _ h
+  exact ⟨cache, dep, h1, h2, hk, hv⟩
+
 end Mxl.C01
